@@ -16,7 +16,7 @@
   embedded documents at most `bs.length` deep; deeper nesting is cut off by the model's fuel, as text)
   with the witness `embedded_cutoff_witness`. See DESIGN_NOTES/C13_C01_proofs.md.
 -/
-import Wbxml.Lemmas.ParserSafeBuild
+import Wbxml.Lemmas.ParserSafeDepth
 namespace Wbxml.Props.C01
 open Wbxml Wbxml.Model Wbxml.Lemmas.ParserSafe
 
@@ -120,6 +120,21 @@ theorem w2x_parser_total (cfg : W2XCfg) (bs : Bytes) :
   · exact Or.inl h
   · exact Or.inr ⟨c, h0, h⟩
 
+/-! ## Bounded: elements and open-element depth of the parse stage -/
+
+/-- **Every start-element event costs an input byte.** Under every option tuple and for every input
+    — accepted or not — the parser delivers at most `bs.length - 3` start-element events (the header
+    takes at least three bytes), and the number of simultaneously open elements (`maxDepth`: the
+    recursion depth of `parse_element`, the height of the tree builder's `current` chain and the
+    element nesting the generator descends into for the document's own elements) never exceeds it.
+    The bound is in terms of the input only, for arbitrary tables. It does not cover the elements of
+    embedded documents (their bytes may come from a table, see `w2x_generator_budget_not_linear`). -/
+theorem parser_depth_le_input (cfg : W2XCfg) (bs : Bytes) :
+    let out := parse { main := cfg.main, langForced := cfg.lang, metaCharset := cfg.charset } bs
+    startCount out.events ≤ bs.length - 3 ∧ maxDepth out.events ≤ startCount out.events ∧
+    maxDepth out.events ≤ bs.length - 3 :=
+  ⟨parse_startCount_le _ bs, maxDepth_le_startCount _, parse_maxDepth_le _ bs⟩
+
 /-! ## The model artefact that remains: nesting of embedded documents -/
 
 /-- **The tree stage nests embedded documents at most `bs.length` deep** (`embDepthT`: number of
@@ -195,6 +210,28 @@ example : (match treeOfWbxml advCfg.main (advDoc.length + 1) 0 0 advDoc with
         | some r => !okNode (2 * advDoc.length + 4) r && t.xmlFuel == 128 && embDepthT t == 1
         | none => false)
     | .error _ => false) = true := by decide +kernel
+
+/-- Consequently no bound of the generator's recursion budget that is linear in the input with the
+    former constants holds for arbitrary tables (the budget is a function of the tree, and an
+    embedded document's tree is as large as the table entry it came from). -/
+theorem w2x_generator_budget_not_linear :
+    ¬ ∀ (cfg : W2XCfg) (bs : Bytes) (t : Tree),
+        treeOfWbxml cfg.main (bs.length + 1) cfg.lang cfg.charset bs = .ok t → t.xmlFuel ≤ 2 * bs.length + 4 := by
+  intro h
+  have hw : (match treeOfWbxml advCfg.main (advDoc.length + 1) advCfg.lang advCfg.charset advDoc with
+      | .ok t => decide (2 * advDoc.length + 4 < t.xmlFuel)
+      | .error _ => false) = true := by decide +kernel
+  cases ht : treeOfWbxml advCfg.main (advDoc.length + 1) advCfg.lang advCfg.charset advDoc with
+  | error e => rw [ht] at hw; cases hw
+  | ok t =>
+    rw [ht] at hw
+    have h1 := h advCfg advDoc t ht
+    have h2 : 2 * advDoc.length + 4 < t.xmlFuel := of_decide_eq_true hw
+    omega
+
+/-- The parse-stage bound on a sample: 4 start-element events, depth 3, 51 bytes. -/
+example : (let out := parse { main := advCfg.main } advDoc
+    startCount out.events == 4 && maxDepth out.events == 3) = true := by decide +kernel
 
 /-! ### Two levels of embedded documents, and the cut-off -/
 
